@@ -14,6 +14,7 @@ import Ndt.Model.Jacobian
 import Ndt.Model.Hessian
 import Ndt.Model.History
 import Ndt.Model.Limit
+import Ndt.Model.Taylor
 import Ndt.Gen.BicomplexRing
 /-! The line-protocol driver: one operation per input line, one output line per input line. -/
 namespace Ndt.Driver
@@ -175,6 +176,22 @@ def optOf (s : String) : Option Rat := if s == "nan" then none else some (rq s)
 
 def handle (w : List String) : String :=
   match w with
+  -- numtaylor n : _num_taylor_coefficients(n)
+  | ["numtaylor", n] => match numTaylor n.toNat! with | some m => toString m | none => "ValueError"
+  -- textrap m | bs… | rs… : fornberg._extrapolate on one coefficient column (exact)
+  | "textrap" :: m :: rest =>
+    match splitBar rest with
+    | [_, bs, rs] =>
+      let b := rats bs; let r := rats rs
+      let u : Nat → Rat := fun t => npow (r.getD t 0) m.toNat!
+      let e0l := extrapPass1 (fun t => b.getD t 0) u r.length
+      joinSp ((extrapPass2 (fun i => e0l.getD i 0) u r.length).map ratStr)
+    | _ => "bad-op"
+  -- tloop maxIter c0 c1 … : the iteration loop with the recorded convergence flags
+  | "tloop" :: mi :: flags =>
+    let conv : Nat → Bool := fun i => flags.getD i "0" == "1"
+    let r := taylorLoop conv mi.toNat! 0
+    s!"{r.1} {b2s (taylorFailed conv mi.toNat!)}"
   -- limext ρ order seq… : the Richardson stage of Limit._lim (exact); limextc for complex ratios / sequences
   | "limext" :: rho :: order :: seq => joinSp ((limitExtrapolate (rq rho) order.toNat! (rats seq)).map ratStr)
   | "limextc" :: rre :: rim :: order :: seq =>
